@@ -266,7 +266,7 @@ def check(ctx, replay=None):
   globalThis.__hook = (name, args, w) => {{ rec.give_nargs = args.length;
     if (args.length >= 1) {{ new Uint8Array(w.memory.buffer, args[args.length - 1], {size}).set(Uint8Array.from("{buf.hex()}".match(/../g).map(h => parseInt(h, 16)))); return undefined; }}
     return GIVEPRIM; }};
-  const GIVEPRIM = {json.dumps(single_prim_js(S, t(n), v))};
+  const GIVEPRIM = {js_lit(single_prim_js(S, t(n), v))};
   try {{ rec.give = ser({n}.give()); }} catch (e) {{ rec.give_error = String(e); }}
   rec.allocs = globalThis.__allocs.slice();
   out.push(rec);
@@ -288,7 +288,12 @@ def check(ctx, replay=None):
                 if "take_error" in rec or "give_error" in rec:
                     violate(f"direct:js-exception:{abi}", dict(ctxinfo, what=f"generated JS threw: {rec.get('take_error') or rec.get('give_error')}")); continue
                 # values read back from Rust's bytes
-                if rec.get("give") != canon(S, t(n), v):
+                got_give = rec.get("give")
+                if wraps_prim(S, t(n)):
+                    # nothing is read from memory here: the export's i32 result is handed through, and a bool arrives as 0 / 1
+                    # exactly as it does for a plain `-> bool` method; that is not a statement about layout
+                    got_give = json.loads(json.dumps(got_give).replace('"1"', "true").replace('"0"', "false")) if single_prim_ty(S, t(n)) == "bool" else got_give
+                if got_give != canon(S, t(n), v):
                     violate(f"direct:read:{abi}", dict(ctxinfo, what=f"JS read {json.dumps(rec.get('give'))} from the repr(C) bytes of {json.dumps(canon(S, t(n), v))}"))
                 if rec.get("give_nargs", 0) >= 1:
                     if [size, align] not in rec["allocs"]:
@@ -297,7 +302,10 @@ def check(ctx, replay=None):
                 if abi == "spec" and wraps_prim(S, t(n)):
                     want = single_prim_js(S, t(n), v)
                     args = rec.get("take_args", [])
-                    if want is not None and (len(args) != 1 or float(args[0]) != float(want)):
+                    if isinstance(want, tuple):
+                        if len(args) != 1 or str(args[0]) != f"{want[1]}n":
+                            violate("direct:wrapper:spec", dict(ctxinfo, what=f"a struct wrapping one 64-bit integer is passed as {args}, expected {want[1]}n"))
+                    elif want is not None and (len(args) != 1 or float(args[0]) != float(want)):
                         violate("direct:wrapper:spec", dict(ctxinfo, what=f"a struct wrapping one primitive is passed as {args}, expected the primitive {want}"))
                 elif abi == "spec":
                     if "take_bytes" in rec:
@@ -345,6 +353,17 @@ def check(ctx, replay=None):
         {"struct_families": 2 if ctx.quick() else 10, "values": nvals})
 
 
+def js_lit(x):
+    """JS literal of the value a mocked wasm export returns (64-bit integers are BigInts)"""
+    return f"{x[1]}n" if isinstance(x, tuple) else json.dumps(x)
+
+
+def single_prim_ty(S, t):
+    while t[0] == "struct" and len(S[t[1]]) == 1:
+        t = S[t[1]][0][1]
+    return t[1] if t[0] == "prim" else None
+
+
 def wraps_prim(S, t):
     """js/gen.rs only_primitive: a struct with exactly one field that is a primitive or such a struct"""
     while t[0] == "struct" and len(S[t[1]]) == 1:
@@ -358,7 +377,7 @@ def single_prim_js(S, t, v):
         fn, ft = S[t[1]][0]
         v, t = v[fn], ft
     if t[0] == "prim" and not isinstance(v, dict):
-        if t[1] in ("u64", "i64"): return None
+        if t[1] in ("u64", "i64"): return ("big", int(v))
         return v if not isinstance(v, bool) else (1 if v else 0)
     if t[0] == "enum":
         return ENUM[v]
